@@ -66,6 +66,8 @@ def runGroupByCase (cid : String) (field : String → List SExp) (events : List 
     | ev :: r =>
       match ev with
       | .atom "q" :: _ => s!"{cid}.{k} kc={kc}" :: go w kc (k + 1) r
+      | .atom "join" :: _ => s!"{cid}.{k} o=" :: go w kc (k + 1) r      -- a silent neighbour on the source subject
+      | .atom "gjoin" :: _ => s!"{cid}.{k} o=" :: go w kc (k + 1) r     -- … on the subject of a group
       | .atom "iter" :: n :: _ =>
         -- a fresh pipeline (the hot one of the case is left as it is)
         let (_, o, pulls) := runIter key (GroupBy.World.init outer skip) n.nat
